@@ -253,9 +253,12 @@ CHECKS = {
              "pixel, within half a pixel of the ideal line), C19_raster_outside / _pixel_centre (range test, (y,x) order, scale; "
              "pixel-centre exactness under the hypothesis that the spline reproduces the grid), C19_sparse_range / _vertex "
              "(barycentric interpolation on a given triangulation: [min,max] inside, 0 outside, stored height at a vertex), "
+             "C19_sparse_point / _affine / _vertex_b / _vertex_c (the weights are the barycentric coordinates of the query point, so the "
+             "value is the height there of the plane through the triangle's stored vertices; plane-shaped data is reproduced exactly; "
+             "all three vertices return their stored height), "
              "C19_raster_path / C19_sparse_path (sample_path as a whole: ends, in-order selection, own height everywhere). Tie: "
              "draw_line == skimage.draw.line and py_round == round exactly, raster_depth / sparse_depth (scipy's simplices) / linspace "
-             "within 1e-9, filter_points == sample_path output exactly; oracle on real maps for every clause of the statement.",
+             "within 1e-9, filter_points == sample_path output exactly; oracle on real maps for every clause of the statement, plus plane-shaped point sets that must be reproduced inside the hull by any triangulation.",
         note=TB + "Partial: scipy RectBivariateSpline and Delaunay/LinearNDInterpolator are hypotheses/inputs of the theorems "
                   "(checked on the code by the oracle at every pixel centre / data point / hull query), float32 height storage "
                   "(1e-6 relative at pixel centres); from_path (OpenCV / loadtxt) not exercised. No axioms.",
